@@ -245,11 +245,11 @@ pub fn check_fields(doc: &Value, format: Format, docs: &[KeyDoc], default_fields
         let g = &got[path];
         if g != want {
             let key = if *present {
-                format!("config-given:{path}{suffix}")
+                format!("config-given:{path}")
             } else if default_fields.get(path) == Some(want) {
-                format!("config-default:{path}:serde-vs-Default{suffix}")
+                format!("config-default:{path}:serde-vs-Default")
             } else {
-                format!("config-default:{path}:serde-vs-doc{suffix}")
+                format!("config-default:{path}:serde-vs-doc")
             };
             viols.push(Viol {
                 key,
@@ -354,7 +354,7 @@ pub fn law_violations(docs: &[KeyDoc]) -> Vec<Viol> {
         for (path, v) in m {
             if d[path] != *v {
                 out.push(Viol {
-                    key: format!("config-default:{path}:serde-vs-Default{}", if name.starts_with("yaml") { ":yaml" } else { "" }),
+                    key: format!("config-default:{path}:serde-vs-Default"),
                     what: format!("{name} gives {path} = {v}, SessionConfig::default() gives {}", d[path]),
                 });
             }
